@@ -12,6 +12,7 @@ PROPS = {
             "HqModel.C15.c15_queue_order_takeTasks",
             "HqModel.C15.c15_queue_sorted_reachable",
             "HqModel.C15.prio_embedding_mono",
+            "HqModel.C15.c15_batches_spec",
             "HqModel.C15.c15_partial_F",
             "HqModel.C15.c15_counterexample",
             "HqModel.C15.c15_counterexample_two_workers",
@@ -27,12 +28,11 @@ PROPS = {
         }],
         "assumptions": [
             "c15_partial_F is PARTIAL: PriorityRespecting is proved for the fragment F = F1 (at most one request class with ready "
-            "tasks, any cluster) u F2 (one worker, at most two such classes, default class weights) only; outside F the property "
+            "tasks, any cluster) u F2 (one worker, at most two such classes, default class weights, at most 32 priority levels) only; outside F the property "
             "is false for the code as it is (c15_counterexample, c15_counterexample_two_workers, c15_counterexample_weights; "
             "KNOWN_FINDINGS F7)",
-            "the F2 part of c15_partial_F has the hypothesis BatchesSpec inst (batches inst) (closed-form specification of what "
-            "create_task_batches computes); it is not yet a theorem about the loop of `batches`, it is evaluated by the driver on "
-            "every generated instance (out-tag spec; 12000 of 12000 surveyed instances satisfy it)",
+            "c15_queue_order* cover queues without a prefill set (proactive filling is off in C15's quantifier and in the generator); "
+            "the hash-ordered drain of a non-empty prefill set is validated by Queue.takeTasks but not covered by a theorem",
             "HiGHS is not modelled: its solution is an input of the model; that it is feasible and optimal for the modelled "
             "MILP is assumed by the theorems and checked by exhaustive enumeration of the integer box on every generated instance "
             "(out-tags feasible/optimal); theorems quantify over EVERY optimal solution, so any tie-break of the solver is covered",
